@@ -182,6 +182,19 @@ def check(case):
                     if not (abs(x0 - s * xc_) <= TOL and abs(x1 - s * xc_) <= TOL):
                         fail("two-atom-axis", "atom %d: %s is %.12g (ref) / %.12g (moved), expected "
                              "s x %.12g = %.12g" % (j, nm, x0, x1, xc_, s * xc_))
+            # "up to a ROTATION about that axis": a mirror image keeps all of the above; the signed volume spanned by the
+            # bond direction and two mapped atoms (seen from the bond) does not
+            if len(tpos) >= 2:
+                def signed(pos, a, u):
+                    v = pos - a
+                    return np.array([[float(np.cross(v[i], v[j]) @ u) for j in range(len(v))] for i in range(len(v))])
+                sc = signed(tpos, a0, u_con) * s * s
+                scale = max(1.0, float(np.abs(sc).max()))
+                for nm, out, a, u in (("map(ref)", out0, a0, u_con), ("map(moved)", out1, a1, u_mov)):
+                    err = float(np.abs(signed(out, a, u) - sc).max())
+                    if not err <= 10 * TOL * scale:
+                        fail("two-atom-handedness", "%s is not a rotation of the construction arrangement about the bond "
+                             "(signed volumes differ by %.3e: a mirror image)" % (nm, err))
     ang = gen.rotation_angle(R)
     nt = ang > 0.1 and bool(np.any(t != 0))
     if n == 2:
